@@ -312,6 +312,17 @@ def mark_pairs(cases, mark_len=13):
     return common.ask_driver(reqs, exe=DRIVER)
 
 
+def mark_attr_pairs(cases, mark_len=13):
+    """cases: [(src, marked_src, (line, col))] for cursors inside / right before an ATTRIBUTE name (`x.re|al`, `x.|y`).
+    The driver checks that the REAL marked tree is `markAttrTree` (lean/SuppModel/Extract/RenameAttr.lean) of the real
+    unmarked tree for exactly one `Attribute` whose `attr` differs, and evaluates `markAttrOK` - the hypotheses of
+    `C12_mark_transparent_attr`.  -> the replies: {'ok', 'p', 'size', 'newAttr', 'equal', 'renQ', 'layoutPair',
+    'queries', 'queriesFixed', 'queriesOK'} or {'ok': False, 'why': ...}"""
+    reqs = [{'op': 'markAttrPair', 'ast': ser(ast.parse(a)), 'marked': ser(ast.parse(m)), 'cursor': list(pos), 'mark_len': mark_len}
+            for a, m, pos in cases]
+    return common.ask_driver(reqs, exe=DRIVER)
+
+
 # --------------------------------------------------------------------------- corpora
 
 SPECIALS = [
